@@ -67,6 +67,10 @@ c06a_run(const c06a_case *c, c06a_out *out) {
 	tp_res_get(&rs);
 	out->base_live_fds = rs.live_fds;
 
+	{
+		int one = 1;
+		(void)setsockopt(ga_sp[0], SOL_SOCKET, SO_RCVLOWAT, &one, sizeof(one));
+	}
 	memset(&ud, 0, sizeof(ud));
 	ud.cb_func = c->cb_null ? NULL : dummy_cb;
 	switch (c->ident_kind) {
@@ -102,6 +106,12 @@ c06a_run(const c06a_case *c, c06a_out *out) {
 		tp_res_get(&rs);
 		r->live_fds = rs.live_fds;
 		r->tpdata = ud.tpdata;
+		{
+			int v = -1;
+			socklen_t vl = sizeof(v);
+			(void)getsockopt(ga_sp[0], SOL_SOCKET, SO_RCVLOWAT, &v, &vl);
+			r->rcvlowat = v;
+		}
 	}
 	/* leave nothing registered for the next case */
 	if (NULL == ud.cb_func)
